@@ -43,6 +43,7 @@ SK: Dict[str, Tuple[List[int], str]] = {
     "MV_A": ([0x08, 0x55], "MV    A, 55"),
     "MV_BA": ([0x0A, 0x34, 0x12], "MV    BA, 1234"),
     "MV_I": ([0x0B, 0x03, 0x00], "MV    I, 0003"),
+    "MV_S": ([0x0F, 0x00, 0xFF, 0x0B], "MV    S, BFF00"),
     "JR+": ([0x12, 0x02], "JR    +02"),
     "JR-": ([0x13, 0x02], "JR    -02"),
     "JRZ+": ([0x18, 0x02], "JRZ   +02"),
